@@ -233,8 +233,18 @@ OCT [0-7]
 	 yylval->f);
 }
 
+<STRING_EMBEDDED>"\\\\" {
+  // An escaped backslash.  Take both so that the second one is not taken
+  // for the start of an escaped quote.
+  yylval->f->str += "\\\\";
+}
+
 <STRING_EMBEDDED>"\\\"" {
   yylval->f->str += "\\\"";
+  // Outside of a nested string literal this is not an escaped quote, but
+  // a string continuation ("foo"\"bar"), which opens a literal again.
+  if (! yylval->f->in_string)
+    yylval->f->in_string = true;
 }
 
 <STRING_EMBEDDED>"\"" {
